@@ -592,6 +592,7 @@ impl ConnectionEngine {
         final(self).transport.recv@.len() == old(self).transport.recv@.len() + 1 && !(final(self).transport.recv@.last().body is Close) && !(final(self).transport.recv@.last().body is Open)
             && final(self).transport.sent@.len() == 1 ==> r is Err && (r->Err_0 is IllegalState || r->Err_0 is NotImplemented),                                   // [C12.frame-before-open-is-illegal] any other frame before the peer's Open is an illegal-state error (which `open` must turn into a Close carrying an error)
         r is Ok ==> final(self).heartbeat.period_ms is Some ==> final(self).heartbeat.period_ms->Some_0 > 0,                                                          // [C15.open.zero-idle-timeout] never a zero heartbeat period
+        final(self).control == old(self).control && final(self).outgoing_session_frames == old(self).outgoing_session_frames,     // [C12.open.queues-untouched] the open exchange consumes nothing from the control queue or the sessions' frame queue
 //@@ end
 
     /// `engine.close_connection(error)` as called by `open` after open_inner failed with `cause`: the real close_connection (contract above), plus what C12 asks of this call site
